@@ -574,26 +574,30 @@ func (d *Document) updateEndnotesFile() {
 
 // addFootnoteRelationship 添加脚注关系
 func (d *Document) addFootnoteRelationship() {
-	relationshipID := fmt.Sprintf("rId%d", len(d.relationships.Relationships)+1)
+	// 脚注/尾注部件由 word/document.xml 引用，关系属于文档级关系（word/_rels/document.xml.rels），
+	// 目标相对于 word/ 目录；放在包级关系中会指向不存在的 /footnotes.xml
+	relationshipID := d.nextDocumentRelID()
 
 	relationship := Relationship{
 		ID:     relationshipID,
 		Type:   "http://schemas.openxmlformats.org/officeDocument/2006/relationships/footnotes",
 		Target: "footnotes.xml",
 	}
-	d.relationships.Relationships = append(d.relationships.Relationships, relationship)
+	d.documentRelationships.Relationships = append(d.documentRelationships.Relationships, relationship)
 }
 
 // addEndnoteRelationship 添加尾注关系
 func (d *Document) addEndnoteRelationship() {
-	relationshipID := fmt.Sprintf("rId%d", len(d.relationships.Relationships)+1)
+	// 脚注/尾注部件由 word/document.xml 引用，关系属于文档级关系（word/_rels/document.xml.rels），
+	// 目标相对于 word/ 目录；放在包级关系中会指向不存在的 /endnotes.xml
+	relationshipID := d.nextDocumentRelID()
 
 	relationship := Relationship{
 		ID:     relationshipID,
 		Type:   "http://schemas.openxmlformats.org/officeDocument/2006/relationships/endnotes",
 		Target: "endnotes.xml",
 	}
-	d.relationships.Relationships = append(d.relationships.Relationships, relationship)
+	d.documentRelationships.Relationships = append(d.documentRelationships.Relationships, relationship)
 }
 
 // GetFootnoteCount 获取脚注数量
@@ -783,12 +787,13 @@ func (d *Document) saveSettings(settings *Settings) error {
 
 // addSettingsRelationship 添加设置文件关系
 func (d *Document) addSettingsRelationship() {
-	relationshipID := fmt.Sprintf("rId%d", len(d.relationships.Relationships)+1)
+	// settings.xml 同样由主文档部件引用，属于文档级关系
+	relationshipID := d.nextDocumentRelID()
 
 	relationship := Relationship{
 		ID:     relationshipID,
 		Type:   "http://schemas.openxmlformats.org/officeDocument/2006/relationships/settings",
-		Target: "word/settings.xml",
+		Target: "settings.xml",
 	}
-	d.relationships.Relationships = append(d.relationships.Relationships, relationship)
+	d.documentRelationships.Relationships = append(d.documentRelationships.Relationships, relationship)
 }
